@@ -421,6 +421,11 @@ class Recorder:
         self.calls = []
 
     def __enter__(self):
+        # a refactoring may remove the name (helper inlined, import dropped): then there is nothing to record and
+        # the caller sees an empty call list - never a crash of the harness
+        self.missing = not hasattr(self.obj, self.name)
+        if self.missing:
+            return self
         self.orig = getattr(self.obj, self.name)
         orig = self.orig
 
@@ -433,5 +438,6 @@ class Recorder:
         return self
 
     def __exit__(self, *exc):
-        setattr(self.obj, self.name, self.orig)
+        if not getattr(self, "missing", False):
+            setattr(self.obj, self.name, self.orig)
         return False
